@@ -1322,3 +1322,127 @@ impl Family for F10 {
         Case { u, p, tag: "F10".into() }
     }
 }
+
+/// F11 "soft sequence": successive soft requirements that share helper packages, so that what one
+/// (possibly abandoned) soft run encoded under its transient decisions is met again by a later run.
+/// Packages: base=1 (root requirement), s=1 and t=1 (the soft solvables), a=1 and a=2, x=1 and x=2,
+/// b=1 (a switch that can be a dead end).
+///  * s requires a* or nothing, requires b* or nothing, and relates to x in one of
+///    {nothing, requires x{1}, requires x{2}, constrains x{1}, constrains x{2}};
+///  * a=1 and a=2 independently relate to x in one of {nothing, constrains x{1}, constrains x{2},
+///    requires x{1}, requires x{2}, requires x*};
+///  * b=1 is one of {no dependencies, requires a package without candidates, Unknown dependencies,
+///    excluded};
+///  * t requires a* or nothing and x in one of {nothing, x{1}, x{2}, x*};
+///  * root requires base, or base and x*;
+///  * soft list: [s, t], [t, s], [s, t, s], [t].
+pub struct F11;
+
+impl F11 {
+    const DIMS: [u64; 10] = [2, 2, 5, 6, 6, 4, 2, 4, 2, 4];
+}
+
+impl Family for F11 {
+    fn name(&self) -> String {
+        "F11 soft sequence (s, t soft; shared a, x; switch b)".into()
+    }
+    fn len(&self) -> u64 {
+        Self::DIMS.iter().product()
+    }
+    fn get(&self, mut idx: u64) -> Case {
+        let mut d = [0u64; 10];
+        for (i, n) in Self::DIMS.iter().enumerate() {
+            d[i] = idx % n;
+            idx /= n;
+        }
+        let mut u = Universe::default();
+        let base = u.add_name("base");
+        let s = u.add_name("s");
+        let t = u.add_name("t");
+        let a = u.add_name("a");
+        let x = u.add_name("x");
+        let b = u.add_name("b");
+        let base1 = u.add_solv(base, 1);
+        let s1 = u.add_solv(s, 1);
+        let t1 = u.add_solv(t, 1);
+        let a1 = u.add_solv(a, 1);
+        let a2 = u.add_solv(a, 2);
+        let x1 = u.add_solv(x, 1);
+        let x2 = u.add_solv(x, 2);
+        let b1 = u.add_solv(b, 1);
+        for n in [a, x] {
+            u.rerank_by_version(n);
+        }
+        let base_all = u.add_vset(base, &[base1]);
+        let a_all = u.add_vset(a, &[a1, a2]);
+        let b_all = u.add_vset(b, &[b1]);
+        let x_1 = u.add_vset(x, &[x1]);
+        let x_2 = u.add_vset(x, &[x2]);
+        let x_all = u.add_vset(x, &[x1, x2]);
+        let _ = base1;
+        // s
+        if d[0] == 1 {
+            u.solvs[s1 as usize].deps.push_req(Req::Single(a_all));
+        }
+        if d[1] == 1 {
+            u.solvs[s1 as usize].deps.push_req(Req::Single(b_all));
+        }
+        match d[2] {
+            1 => u.solvs[s1 as usize].deps.push_req(Req::Single(x_1)),
+            2 => u.solvs[s1 as usize].deps.push_req(Req::Single(x_2)),
+            3 => u.solvs[s1 as usize].deps.push_con(x_1),
+            4 => u.solvs[s1 as usize].deps.push_con(x_2),
+            _ => {}
+        }
+        // a=1, a=2
+        for (sv, o) in [(a1, d[3]), (a2, d[4])] {
+            match o {
+                1 => u.solvs[sv as usize].deps.push_con(x_1),
+                2 => u.solvs[sv as usize].deps.push_con(x_2),
+                3 => u.solvs[sv as usize].deps.push_req(Req::Single(x_1)),
+                4 => u.solvs[sv as usize].deps.push_req(Req::Single(x_2)),
+                5 => u.solvs[sv as usize].deps.push_req(Req::Single(x_all)),
+                _ => {}
+            }
+        }
+        // b
+        match d[5] {
+            1 => {
+                let m = u.add_missing_name("m");
+                let mv = u.add_vset(m, &[]);
+                u.solvs[b1 as usize].deps.push_req(Req::Single(mv));
+            }
+            2 => {
+                let r = u.add_string("unknown");
+                u.solvs[b1 as usize].deps = Deps::Unknown(r);
+            }
+            3 => {
+                let r = u.add_string("excluded");
+                u.names[b as usize].excluded.push((b1, r));
+            }
+            _ => {}
+        }
+        // t
+        if d[6] == 1 {
+            u.solvs[t1 as usize].deps.push_req(Req::Single(a_all));
+        }
+        match d[7] {
+            1 => u.solvs[t1 as usize].deps.push_req(Req::Single(x_1)),
+            2 => u.solvs[t1 as usize].deps.push_req(Req::Single(x_2)),
+            3 => u.solvs[t1 as usize].deps.push_req(Req::Single(x_all)),
+            _ => {}
+        }
+        let mut p = Problem::default();
+        p.reqs.push(Req::Single(base_all));
+        if d[8] == 1 {
+            p.reqs.push(Req::Single(x_all));
+        }
+        p.soft = match d[9] {
+            0 => vec![s1, t1],
+            1 => vec![t1, s1],
+            2 => vec![s1, t1, s1],
+            _ => vec![t1],
+        };
+        Case { u, p, tag: "F11".into() }
+    }
+}
